@@ -159,6 +159,18 @@ def _(E, m, a, c0):
     o = Adt('Ordering', _lexcmp(E, chars(a[0]), chars(a[1])), [])
     return opt(o) if 'partial_cmp' in c0 else o
 
+# a call through the Fn traits of a generic / `impl Fn…` parameter: invoke the closure value that was passed
+@pattern(r'<.* as Fn(Once|Mut)?<.*>>::call(_once|_mut)?')
+def _(E, m, a, c0):
+    f = E.deref(a[0]) if isinstance(a[0], Ref) else a[0]
+    if not isinstance(f, (Closure, FnItem)): return NotImplemented
+    return E.call_closure(f, list(a[1].fields) if isinstance(a[1], Tup) else [a[1]])
+
+# RefCell guards: a guard is represented by the reference to the cell's content
+@pattern(r'<(?:std::cell::)?Ref(Mut)?<.*> as Deref(Mut)?>::deref(_mut)?')
+def _(E, m, a, c0):
+    inner = E.deref(a[0]); return inner if isinstance(inner, Ref) else a[0]
+
 # enum constructors of std used as function values (`.map(Ok)`, `.map(Some)`)
 @pattern(r'(?:std::result::)?Result::(Ok|Err)|(?:std::option::)?Option::(Some)')
 def _(E, m, a, c0):
